@@ -21,5 +21,6 @@ run dst_test.go.part . walk '*'
 run dstutil_test.go.part dstutil accessor '*'
 run decorator_test.go.part decorator restore '*'
 run decorator_test.go.part decorator helpers applyDecorations
+run dstutil_test.go.part dstutil cursor apply
 for op in Append Prepend Replace Clear All; do run dst_test.go.part . declist $op; done
 exit $rc
